@@ -74,6 +74,12 @@ pub fn profile(prop: &str, tier: &str) -> Profile {
     };
     match prop {
         "C01" => Profile { name: "C01", ..base },
+        "ALL" => {
+            let mut pays = ALL_PAY.to_vec();
+            pays.push(Pay::PB);
+            pays.push(Pay::PB);
+            Profile { name: "ALL", pays, ..base }
+        }
         "C02" => Profile {
             name: "C02",
             weights: w(&[
@@ -379,10 +385,14 @@ pub fn accepts(prop: &str, v: &Viol, ops: &[OpRec]) -> bool {
     if p == "panic" {
         return true;
     }
+    if prop == "ALL" {
+        return true;
+    }
     let in_list = |l: &[&str]| l.contains(&p);
     let opk = v.op.and_then(|i| ops.get(i as usize));
     match prop {
-        "C01" => in_list(&["dup_recv", "recv_after_failed_send", "lost_value", "corrupt_value", "drop_of_unknown_value"]),
+        // (a value that was received or handed back AND destroyed by the library has two fates)
+        "C01" => in_list(&["dup_recv", "recv_after_failed_send", "lost_value", "corrupt_value", "drop_of_unknown_value", "double_drop"]),
         "C02" => in_list(&["fifo"]),
         "C04" => in_list(&["corrupt_value", "drop_of_unknown_value", "race"]),
         "C05" => in_list(LEDGER_ALL),
